@@ -74,6 +74,9 @@ func installKnobs(s *sim.Sim, k plan.Knobs) {
 		vipv6.MaxBatch = k.UDPMaxBatch
 	}
 	vipv6.Coalesce = time.Duration(k.UDPCoalesce) * time.Microsecond
+	if v := os.Getenv("SIM_PROGRESS"); v != "" {
+		fmt.Sscan(v, &sim.Progress)
+	}
 	if os.Getenv("SIM_GNET_DEBUG") != "" {
 		vgnet.Debug = func(kind, link string, n, a, b, c int) {
 			s.Logf(kind, "%s n=%d inbound %d->%d left=%d", link, n, a, b, c)
